@@ -174,6 +174,16 @@ impl Parser for Markdown {
                 traversed_bytes = range.start;
             }
 
+            // The number of characters the event covers in the source, starting at the cursor.
+            // The text carried by an event can differ in length from the source it stands for
+            // (normalised line endings, stripped delimiters), so unlintable regions are
+            // measured on the source.
+            let covered_chars = || {
+                source_str[traversed_bytes.min(range.end)..range.end]
+                    .chars()
+                    .count()
+            };
+
             match event {
                 pulldown_cmark::Event::SoftBreak => {
                     tokens.push(Token {
@@ -212,12 +222,17 @@ impl Parser for Markdown {
                 pulldown_cmark::Event::InlineMath(code)
                 | pulldown_cmark::Event::DisplayMath(code)
                 | pulldown_cmark::Event::Code(code) => {
-                    let chunk_len = code.chars().count();
+                    let _ = code;
+                    let chunk_len = covered_chars();
 
-                    tokens.push(Token {
-                        span: Span::new_with_len(traversed_chars, chunk_len),
-                        kind: TokenKind::Unlintable,
-                    });
+                    // Empty math or code covers no text: emit nothing rather than a zero-width
+                    // token.
+                    if chunk_len > 0 {
+                        tokens.push(Token {
+                            span: Span::new_with_len(traversed_chars, chunk_len),
+                            kind: TokenKind::Unlintable,
+                        });
+                    }
                 }
                 pulldown_cmark::Event::Text(text) => {
                     let chunk_len = text.chars().count();
@@ -225,18 +240,17 @@ impl Parser for Markdown {
                     if let Some(tag) = stack.last() {
                         use pulldown_cmark::Tag;
 
-                        if matches!(tag, Tag::CodeBlock(..)) {
-                            tokens.push(Token {
-                                span: Span::new_with_len(traversed_chars, text.chars().count()),
-                                kind: TokenKind::Unlintable,
-                            });
-                            continue;
-                        }
-                        if matches!(tag, Tag::Link { .. }) && self.options.ignore_link_title {
-                            tokens.push(Token {
-                                span: Span::new_with_len(traversed_chars, text.chars().count()),
-                                kind: TokenKind::Unlintable,
-                            });
+                        if matches!(tag, Tag::CodeBlock(..))
+                            || (matches!(tag, Tag::Link { .. }) && self.options.ignore_link_title)
+                        {
+                            let covered = covered_chars();
+
+                            if covered > 0 {
+                                tokens.push(Token {
+                                    span: Span::new_with_len(traversed_chars, covered),
+                                    kind: TokenKind::Unlintable,
+                                });
+                            }
                             continue;
                         }
                         if !(matches!(tag, Tag::Paragraph)
@@ -264,11 +278,14 @@ impl Parser for Markdown {
                 // TODO: Support via `harper-html`
                 pulldown_cmark::Event::Html(_content)
                 | pulldown_cmark::Event::InlineHtml(_content) => {
-                    let size = _content.chars().count();
-                    tokens.push(Token {
-                        span: Span::new_with_len(traversed_chars, size),
-                        kind: TokenKind::Unlintable,
-                    });
+                    let size = covered_chars();
+
+                    if size > 0 {
+                        tokens.push(Token {
+                            span: Span::new_with_len(traversed_chars, size),
+                            kind: TokenKind::Unlintable,
+                        });
+                    }
                 }
                 _ => (),
             }
